@@ -277,6 +277,39 @@ var intrinsicNames = []string{
 
 func (e *Exec) harnessAPI(caller *frame, fn *ssa.Function, short string, args []Value) (Value, bool) {
 	f := e.tf
+	if e.P.Concrete != nil && strings.HasPrefix(short, "verifNondet") {
+		name := e.strArg(args[0])
+		sv, ok := e.P.Concrete[name]
+		switch short {
+		case "verifNondetInt", "verifNondetInt64", "verifNondetDyadic":
+			v := int64(0)
+			if ok {
+				v, _ = strconv.ParseInt(sv, 10, 64)
+			} else if lo := e.i64Arg(args[1]); lo > 0 {
+				v = lo
+			} else if hi := e.i64Arg(args[2]); hi < 0 {
+				v = hi
+			}
+			if v < e.i64Arg(args[1]) || v > e.i64Arg(args[2]) {
+				e.end("infeasible", "concrete input out of declared range")
+			}
+			if short == "verifNondetDyadic" {
+				return float64(v) / math.Ldexp(1, int(args[3].(uint64))), true
+			}
+			return uint64(v), true
+		case "verifNondetUint", "verifNondetUint64":
+			v := args[1].(uint64)
+			if ok {
+				v, _ = strconv.ParseUint(sv, 10, 64)
+			}
+			return v, true
+		case "verifNondetBool":
+			return sv == "true", true
+		case "verifNondetFloat64":
+			u, _ := strconv.ParseUint(sv, 0, 64)
+			return math.Float64frombits(u), true
+		}
+	}
 	switch short {
 	case "verifNondetInt", "verifNondetInt64":
 		name := e.strArg(args[0])
